@@ -58,6 +58,7 @@ type ccSpec struct {
 	remove []int    // indices of base entries the edit removes
 	twins  []int    // indices of base entries of which a same-identity twin (other start) is added
 	fresh  int      // number of new-identity entries added
+	mode   string   // what races with the parked Pop: "edit" (EditTask), "pop2" (a second Pop), "look" (Schedule / Peek)
 }
 
 type ccWorld struct {
@@ -181,10 +182,6 @@ func ccRace(sp ccSpec) (out string, editInside bool, err error) {
 	if err != nil {
 		return "", false, err
 	}
-	type popRes struct {
-		t   def.Task
-		err error
-	}
 	popDone := make(chan popRes, 1)
 	editDone := make(chan error, 1)
 	w.probe.armed.Store(true)
@@ -194,6 +191,12 @@ func ccRace(sp ccSpec) (out string, editInside bool, err error) {
 	}()
 	var pr popRes
 	var eerr error
+	if sp.mode == "pop2" || sp.mode == "look" {
+		return ccRaceOther(sp, w, popDone)
+	}
+	if sp.mode == "stop" {
+		return ccRaceStop(w)
+	}
 	select {
 	case <-w.probe.inNext:
 		// the Pop is between removing the head and pushing its successor
@@ -214,6 +217,132 @@ func ccRace(sp ccSpec) (out string, editInside bool, err error) {
 		eerr = w.store.EditTask(fn)
 	}
 	return w.outcome(pr.t, pr.err, eerr), editInside, nil
+}
+
+type popRes struct {
+	t   def.Task
+	err error
+}
+
+// ccRaceOther: while the first Pop is parked inside Schedule.Next, a second Pop ("pop2") or a reader ("look":
+// Schedule and Peek) runs. With the store's mutex held over the whole Pop they wait; whatever happens, two Pops must
+// hand out the two occurrences two sequential Pops hand out, and a reader must never see a registered entry without
+// exactly one pending occurrence, nor a head that is not the minimum of the pending list.
+func ccRaceOther(sp ccSpec, w *ccWorld, popDone chan popRes) (string, bool, error) {
+	n := len(sp.exprs)
+	select {
+	case <-w.probe.inNext:
+	case pr := <-popDone:
+		return "pop1=" + ccTaskKey(pr.t) + " (no window)", false, nil
+	}
+	inside := false
+	var out string
+	if sp.mode == "pop2" {
+		second := make(chan popRes, 1)
+		go func() { t, err := w.store.Pop(context.Background()); second <- popRes{t, err} }()
+		var p2 popRes
+		got2 := false
+		select {
+		case p2 = <-second:
+			inside, got2 = true, true
+		case <-time.After(60 * time.Millisecond):
+		}
+		w.probe.release <- struct{}{}
+		p1 := <-popDone
+		if !got2 {
+			p2 = <-second
+		}
+		keys := []string{ccTaskKey(p1.t), ccTaskKey(p2.t)}
+		sort.Strings(keys)
+		out = "pops=" + strings.Join(keys, ",")
+	} else {
+		type look struct {
+			sched []def.Task
+			head  def.Task
+			err   error
+		}
+		seen := make(chan look, 1)
+		go func() {
+			s := w.store.Schedule()
+			h, err := w.store.Peek(context.Background())
+			seen <- look{s, h, err}
+		}()
+		var l look
+		select {
+		case l = <-seen:
+			inside = true
+		case <-time.After(60 * time.Millisecond):
+		}
+		w.probe.release <- struct{}{}
+		<-popDone
+		if !inside {
+			l = <-seen
+		}
+		out = fmt.Sprintf("pending=%d of %d entries", len(l.sched), n)
+	}
+	return out, inside, nil
+}
+
+// ccRaceStop: the timer is started; a Pop is parked inside its re-arm sequence (at the clock's Stop call, i.e. after
+// the store looked at "is the timer started") while StopTimer runs. In either sequential order the timer is neither
+// armed nor pending once both have returned: a stopped store does not fire until it is started again (C17).
+func ccRaceStop(w *ccWorld) (string, bool, error) {
+	w.store.StartTimer(context.Background())
+	var armedHook atomic.Bool
+	parked := make(chan struct{})
+	release := make(chan struct{})
+	w.clk.OnStop = func() {
+		if armedHook.CompareAndSwap(true, false) {
+			parked <- struct{}{}
+			<-release
+		}
+	}
+	defer func() { w.clk.OnStop = nil }()
+	w.probe.armed.Store(false)
+	armedHook.Store(true)
+	popDone := make(chan struct{})
+	go func() { w.store.Pop(context.Background()); close(popDone) }()
+	inside := false
+	select {
+	case <-parked:
+		stopDone := make(chan struct{})
+		go func() { w.store.StopTimer(); close(stopDone) }()
+		select {
+		case <-stopDone:
+			inside = true
+		case <-time.After(60 * time.Millisecond):
+		}
+		release <- struct{}{}
+		<-popDone
+		<-stopDone
+	case <-popDone:
+		armedHook.Store(false)
+		w.store.StopTimer()
+	}
+	armed, _, pending := w.clk.State()
+	return fmt.Sprintf("armed=%v pending=%v", armed, pending), inside, nil
+}
+
+// ccSequentialOther: the reference for ccRaceOther.
+func ccSequentialOther(sp ccSpec) (string, error) {
+	w, err := ccBuild(sp)
+	if err != nil {
+		return "", err
+	}
+	if sp.mode == "stop" {
+		return "armed=false pending=false", nil
+	}
+	if sp.mode == "pop2" {
+		a, e1 := w.store.Pop(context.Background())
+		b, e2 := w.store.Pop(context.Background())
+		if e1 != nil || e2 != nil {
+			return "", fmt.Errorf("pop failed")
+		}
+		keys := []string{ccTaskKey(a), ccTaskKey(b)}
+		sort.Strings(keys)
+		return "pops=" + strings.Join(keys, ","), nil
+	}
+	return fmt.Sprintf("pending=%d of %d entries", len(sp.exprs), len(sp.exprs)), nil
 }
 
 func ccSpecString(sp ccSpec) string {
@@ -240,6 +369,7 @@ func ccGen(r *rng.R) ccSpec {
 		}
 	}
 	sp.fresh = r.Intn(2)
+	sp.mode = rng.Pick(r, []string{"edit", "edit", "pop2", "look", "stop"})
 	return sp
 }
 
@@ -255,12 +385,12 @@ func ccEncode(sp ccSpec) string {
 		}
 		return strings.Join(s, ",")
 	}
-	return fmt.Sprintf("race %s %s %d %s %s %d", proto.Str(strings.Join(sp.exprs, ";")), ints(sp.starts), sp.pops, ints(sp.remove), ints(sp.twins), sp.fresh)
+	return fmt.Sprintf("race %s %s %d %s %s %d %s", proto.Str(strings.Join(sp.exprs, ";")), ints(sp.starts), sp.pops, ints(sp.remove), ints(sp.twins), sp.fresh, sp.mode)
 }
 
 func ccDecode(line string) (ccSpec, bool) {
 	f := strings.Fields(line)
-	if len(f) != 7 || f[0] != "race" {
+	if (len(f) != 7 && len(f) != 8) || f[0] != "race" {
 		return ccSpec{}, false
 	}
 	ints := func(s string) []int {
@@ -279,6 +409,10 @@ func ccDecode(line string) (ccSpec, bool) {
 	sp := ccSpec{exprs: strings.Split(ex, ";"), starts: ints(f[2]), remove: ints(f[4]), twins: ints(f[5])}
 	fmt.Sscan(f[3], &sp.pops)
 	fmt.Sscan(f[6], &sp.fresh)
+	sp.mode = "edit"
+	if len(f) == 8 {
+		sp.mode = f[7]
+	}
 	if len(sp.starts) != len(sp.exprs) {
 		return ccSpec{}, false
 	}
@@ -297,6 +431,28 @@ func cronConcExec(h sim.History) []string {
 	for _, line := range h.Ops {
 		sp, ok := ccDecode(line)
 		if !ok {
+			continue
+		}
+		if sp.mode == "pop2" || sp.mode == "look" || sp.mode == "stop" {
+			ref, err1 := ccSequentialOther(sp)
+			obs, inside, err2 := ccRace(sp)
+			if err1 != nil || err2 != nil || strings.HasSuffix(obs, "(no window)") {
+				continue
+			}
+			if inside {
+				ccInside.Add(1)
+			}
+			if obs != ref {
+				what := "two concurrent Pops handed out " + proto.Str(obs) + " but two Pops in sequence hand out " + proto.Str(ref)
+				if sp.mode == "stop" {
+					out = append(out, "mismatch C17 a Pop and a StopTimer ran concurrently; after both returned the timer is "+proto.Str(obs)+" although the store is stopped")
+					continue
+				}
+				if sp.mode == "look" {
+					what = "a reader running while a Pop was in progress saw " + proto.Str(obs) + " (every registered entry has exactly one pending occurrence at any instant)"
+				}
+				out = append(out, "mismatch C15 "+what)
+			}
 			continue
 		}
 		a, err1 := ccSequential(sp, false)
@@ -350,6 +506,7 @@ func cmdCronConc(args []string) {
 		if sp, ok := ccDecode(h.Ops[0]); ok {
 			rep.Dist[fmt.Sprintf("removes:%d", len(sp.remove))]++
 			rep.Dist[fmt.Sprintf("twins:%d", len(sp.twins))]++
+			rep.Dist["mode:"+sp.mode]++
 		}
 	}
 	if len(hists) > 0 {
